@@ -149,6 +149,10 @@ def training_case(rnd, layers, in_dims, out_dims, iters, lr, cost="mse", batches
         steps.append({"op": "m_backward", "args": [y]})
         if "double_backward" in twists and it % 2 == 0:
             steps.append({"op": "m_backward", "args": [y]})       # gradients accumulate: the update uses the sum
+        if "rebuild_before_update" in twists:
+            # a new Model over the same layers between backward and update (the gradients live in the layers)
+            steps.append({"op": "model_drop"})
+            steps.append({"op": "model_new", "layers": lids, "lr": sc(lr), "cost": cost})
         steps.append({"op": "m_update"})
         if "double_update" in twists:
             steps.append({"op": "m_update"})                      # nothing holds a gradient any more: no change
@@ -169,7 +173,7 @@ def c14_cases(tier, seed):
     for _ in range(n):
         nl = rnd.choice([1, 1, 2, 3])
         sizes = [rnd.choice([1, 2]) for _ in range(nl + 1)]
-        twists = [t for t in ("double_forward", "double_backward", "double_update") if rnd.random() < 0.2]
+        twists = [t for t in ("double_forward", "double_backward", "double_update", "rebuild_before_update") if rnd.random() < 0.2]
         layers = []
         for k in range(nl):
             layers.append(dense_new(k + 1, sizes[k], sizes[k + 1], rnd.choice(["none", "relu"]), [100 + 2 * k, 101 + 2 * k], rot=rnd.randrange(12)))
@@ -226,6 +230,34 @@ def c14_cases(tier, seed):
         layers = [conv_new(1, [cnt, 1, fr, fc], sr, sc_, rnd.choice(["none", "relu"]), [100, 101]),
                   dense_new(2, occ, nout, "none", [102, 103], rot=3)]
         cases.append(training_case(rnd, layers, [1, ir, ic], [cnt, orr, nout], rnd.choice([1, 2]), F(1, 2), batches=[b]))
+    # conv followed by conv with overlapping windows (stride 1): the second layer's image gradient feeds the first
+    for _ in range(20 if tier == "thorough" else 5):
+        c1, c2 = rnd.choice([1, 2]), rnd.choice([1, 2])
+        b = rnd.choice([[], [2]])
+        if prod(b + [c2, 2, 2]) not in (4, 8, 16):
+            continue
+        layers = [conv_new(1, [c1, 1, 2, 2], 1, 1, rnd.choice(["none", "relu"]), [100, 101], rot=rnd.randrange(12)),
+                  conv_new(2, [c2, c1, 2, 2], 1, 1, "none", [102, 103], rot=rnd.randrange(12))]
+        cases.append(training_case(rnd, layers, [1, 4, 4], [c2, 2, 2], rnd.choice([1, 2]), F(1, 4), batches=[b]))
+    return cases
+
+
+def model_update_cases(tier, seed):
+    """Model::update = the optimizer's update over all layers' parameters, whatever the model object went through:
+    models rebuilt over the same layers between backward and update, repeated updates, frozen parameters."""
+    rnd = random.Random(seed)
+    cases = []
+    for _ in range(80 if tier == "thorough" else 24):
+        nl = rnd.choice([1, 2])
+        sizes = [rnd.choice([1, 2]) for _ in range(nl + 1)]
+        layers = [dense_new(k + 1, sizes[k], sizes[k + 1], rnd.choice(["none", "relu"]), [100 + 2 * k, 101 + 2 * k], rot=rnd.randrange(12))
+                  for k in range(nl)]
+        params = [p for l in layers for p in l["ph"]]
+        tw = ["rebuild_before_update"] if rnd.random() < 0.7 else []
+        tw += [t for t in ("double_update", "double_backward") if rnd.random() < 0.3]
+        freeze = (rnd.choice(params), rnd.choice([0, 1])) if rnd.random() < 0.4 else None
+        cases.append(training_case(rnd, layers, [sizes[0]], [sizes[-1]], rnd.choice([1, 2]), rnd.choice([F(1, 2), 1, F(1, 4)]),
+                                   batches=[[]] if sizes[-1] in (1, 2) else [[2]], freeze=freeze, twists=tw, ownership=False))
     return cases
 
 
@@ -274,6 +306,16 @@ def c15_cases(tier, seed):
             steps = [RESET, leaf(1, [1, n], small_vals(rnd, n), trk=trk[0]), leaf(2, [n], small_vals(rnd, n), trk=trk[1]),
                      {"op": "cost", "kind": "mse", "args": [1, 2], "res": 3}, {"op": "sum_all", "args": [3]}, backward(3)]
             cases.append(steps)
+    # targets with MORE dimensions than the output: the cost array has a higher rank, its sum is over all of it
+    for n in (1, 2):
+        steps = [RESET, leaf(1, [2, n], small_vals(rnd, 2 * n), trk=True), leaf(2, [2, 2, n], small_vals(rnd, 4 * n)),
+                 {"op": "cost", "kind": "mse", "args": [1, 2], "res": 3}, {"op": "sum_all", "args": [3]}, backward(3)]
+        cases.append(steps)
+        layers = [dense_new(1, 2, n, "none", [100, 101], rot=n)]
+        steps = [RESET] + layers + [{"op": "model_new", "layers": [1], "lr": sc(F(1, 2)), "cost": "mse"},
+                                    leaf(10, [2, 2], small_vals(rnd, 4)), {"op": "m_forward", "args": [10], "res": 11},
+                                    leaf(12, [2, 2, n], small_vals(rnd, 4 * n)), {"op": "m_backward", "args": [12]}, {"op": "m_update"}]
+        cases.append(steps)
     # model forward = composition of its layers in order; backward value
     for _ in range(200 if tier == "thorough" else 40):
         nl = rnd.choice([1, 2, 3])
